@@ -555,3 +555,52 @@ Proof.
       intros c I. apply pair_edge2_ok; cbn [fst snd]; lia.
 Qed.
 End Grid.
+
+(* ------------------------------------------------------------------ *)
+(* the H-tree                                                          *)
+(* ------------------------------------------------------------------ *)
+(* number of modules of an H-tree with l levels *)
+Fixpoint hcount (l : nat) : nat :=
+  match l with
+  | O => 0
+  | S O => 1
+  | S l' => 3 + 4 * hcount l'
+  end.
+
+Definition wedge_w (a b : nat) (w : Qc) : wedge := ([mname a; mname b], Some w).
+
+(* the nets of the tree with l levels rooted at module f, weight w at the root,
+   doubled at each level: centre-left, centre-right, then for each of the four
+   sub-trees the net centre - sub-centre followed by the sub-tree's nets, then
+   left - sub-centres 0, 1 and right - sub-centres 2, 3 *)
+Fixpoint hwedges (l : nat) (w : Qc) (f : nat) : list wedge :=
+  match l with
+  | O => []
+  | S O => []
+  | S l' =>
+      let sub k := (f + 3 + k * hcount l')%nat in
+      (((((((([wedge_w (f + 1) f w; wedge_w (f + 2) f w]
+              ++ [wedge_w f (sub 0%nat) w]) ++ hwedges l' (two * w) (sub 0%nat))
+            ++ [wedge_w f (sub 1%nat) w]) ++ hwedges l' (two * w) (sub 1%nat))
+          ++ [wedge_w f (sub 2%nat) w]) ++ hwedges l' (two * w) (sub 2%nat))
+        ++ [wedge_w f (sub 3%nat) w]) ++ hwedges l' (two * w) (sub 3%nat))
+      ++ [wedge_w (f + 1) (sub 0%nat) w; wedge_w (f + 1) (sub 1%nat) w;
+          wedge_w (f + 2) (sub 2%nat) w; wedge_w (f + 2) (sub 3%nat) w]
+  end.
+
+Definition htree_entries (l : nat) : list entry := names_entries (map mname (range (hcount l))).
+
+Section HTree.
+Variable sqrt_o : Qc -> Qc.
+Variable epsdef : option (Qc * Qc).
+
+(* the full statement: every number of levels >= 1 *)
+Definition netgen_htree_statement : Prop :=
+  forall l area, (1 <= l)%nat -> Qcltb 0 area = true ->
+  exists doc, gen_htree l area = Some doc /\
+    read_netlist sqrt_o epsdef doc = Ok (loaded sqrt_o epsdef area (htree_entries l) (hwedges l 1 0)).
+
+(* the generator is defined exactly for l >= 1 *)
+Lemma gen_htree_zero area : gen_htree 0 area = None.
+Proof. reflexivity. Qed.
+End HTree.
